@@ -36,7 +36,8 @@ Order(c) == c.h * c.n                            \* #E(GF(p)), Inf included
 \* every point of the group, as a sequence in the order 0*T, 1*T, ..., (h*n-1)*T
 GroupSeq(c) == MulTable(c, T(c), Order(c) - 1)
 
-\* all solutions of the curve equation, by exhaustion (8-bit fields only: p^2 candidates)
+\* all solutions of the curve equation, by exhaustion (8-bit fields only: p^2 candidates); counted in
+\* EcCurvesCount.tla (kept out of this module because every module that EXTENDS it re-checks its ASSUMEs)
 AffinePoints(c) == { P \in (0..(c.p - 1)) \X (0..(c.p - 1)) : OnCurve(c, P) }
 
 RECURSIVE Pow2(_)
@@ -54,10 +55,6 @@ ASSUME \A i \in 1..Len(AllCurves) : LET c == AllCurves[i] IN
           /\ OnCurve(c, T(c)) /\ Mul(c, Order(c), T(c)) = Inf
           /\ (c.h = 1 => T(c) = G(c))
 ASSUME E8M3.a = E8M3.p - 3 /\ E16M3.a = E16M3.p - 3 /\ E8Z.a = 0
-\* 8-bit curves: count the points; T really enumerates all of them
-ASSUME \A i \in 1..Len(Curves8) : LET c == Curves8[i]  s == GroupSeq(c) IN
-          /\ Cardinality(AffinePoints(c)) + 1 = Order(c)
-          /\ { s[j] : j \in 1..Len(s) } = AffinePoints(c) \cup { Inf }
 \* E8C4: G generates the subgroup of index 4; there is a point of order 2 and one of order 4
 ASSUME LET c == E8C4 IN
           /\ Mul(c, 4, T(c)) # Inf /\ Mul(c, 59, T(c)) # Inf /\ Mul(c, 118, T(c)) # Inf
